@@ -123,6 +123,7 @@ CmdCases ==
     \cup {[seqs |-> <<>>], OneSeq("", <<>>), OneSeq(Rep("n", 128), <<>>),
           [seqs |-> <<[name |-> "A", cmds |-> <<Cmd("a", 0, "", TRUE, FALSE, "", TRUE, FALSE), Cmd("", 257, "x y", FALSE, TRUE, "z", FALSE, TRUE)>>],
                       [name |-> "B", cmds |-> <<>>]>>],
+          OneSeq("Twice", <<Cmd("$bsp_exe", 0, "-x", TRUE, FALSE, "", TRUE, FALSE), Cmd("$bsp_exe", 0, "-x", TRUE, FALSE, "", TRUE, FALSE)>>),
           \* outside the field widths: must be refused
           OneSeq(Rep("n", 129), <<>>),
           OneSeq("X", <<Cmd(Rep("e", 261), 0, "", TRUE, FALSE, "", TRUE, FALSE)>>),
@@ -150,12 +151,14 @@ Flex(name, actv, mn, mx, mag, combo, dir) ==
      left |-> NoEdge, right |-> NoEdge]
 Feats == {"base", "end", "params3", "flags0", "flags63", "flags_lock", "ramp2", "ramp_curve", "ramp_edges",
           "edges_only", "tag", "tag_name_only", "dist", "rel", "timing", "timing_locked", "absp", "absp_wide", "abss", "flex",
-          "flex_combo", "flex_range", "dcurve", "pitchyaw", "odd_name", "gesture_dur", "loops", "cc_slave",
+          "flex_combo", "flex_range", "flex_repeat", "dcurve", "pitchyaw", "odd_name", "gesture_dur", "loops", "cc_slave",
           "cc_disabled_combined", "cc_token", "cc_flags",
           \* single flag bits, one edge only, several optional blocks at once
           "flag1", "flag2", "flag4", "flag16", "flag32", "right_edge", "all_tags", "tag_flex", "all",
           \* strings outside ASCII: Latin-1 letters, and characters beyond U+00FF
-          "latin1", "wide"}
+          "latin1", "wide",
+          \* every list with a member repeated
+          "repeats"}
 S1 == <<"0.25", "1.0", "DEFAULT", "DEFAULT">>
 S2 == <<"0.75", "0.2", "DEFAULT", "DEFAULT">>
 S3 == <<"1.5", "0.0", "EASE_IN", "HOLD">>
@@ -183,6 +186,7 @@ Vary(e, f) ==
       [] f = "flex_combo" -> [e EXCEPT !.flex = <<Flex("head_rightleft", TRUE, "0.0", "1.0", <<S1>>, TRUE, <<S2>>),
                                                  Flex("empty", TRUE, "0.0", "1.0", <<>>, TRUE, <<>>)>>]
       [] f = "flex_range" -> [e EXCEPT !.flex = <<Flex("jaw", FALSE, "0.25", "0.75", <<S2>>, FALSE, <<>>)>>]
+      [] f = "flex_repeat" -> [e EXCEPT !.flex = <<Flex("jaw", TRUE, "0.0", "1.0", <<S1, S1>>, FALSE, <<>>), Flex("jaw", TRUE, "0.0", "1.0", <<S2>>, TRUE, <<S1, S1>>)>>]
       [] f = "dcurve" -> [e EXCEPT !.dcurve = <<"LINEAR", "LINEAR">>]
       [] f = "pitchyaw" -> [e EXCEPT !.pitch = 61, !.yaw = 0 - 47]
       [] f = "odd_name" -> [e EXCEPT !.name = "say \"hi\" {x}", !.params = <<"back\\slash", "", "">>]
@@ -198,6 +202,9 @@ Vary(e, f) ==
       [] f = "wide" -> [e EXCEPT !.name = "{20ac}uro {3a9}", !.params = <<"{4e2d}{6587}", "", "{1f600}">>,
                                  !.absp = <<<<"{3a9}", "0.5">>>>,
                                  !.cc_token = IF e.type = "Speak" THEN "tok.{20ac}" ELSE @]
+      [] f = "repeats" -> [e EXCEPT !.rel = <<<<"t", "0.2">>, <<"t", "1.0">>, <<"T", "0.2">>>>, !.timing = <<<<"t", "0.2", FALSE>>, <<"t", "0.2", FALSE>>>>,
+                                    !.absp = <<<<"p", "0.5">>, <<"p", "0.5">>>>, !.abss = <<<<"s", "0.25">>, <<"s", "1.0">>>>,
+                                    !.ramp.ramp = <<S1, S1, S2>>]
       [] f = "flag1" -> [e EXCEPT !.flags = 9]
       [] f = "flag2" -> [e EXCEPT !.flags = 2]
       [] f = "flag4" -> [e EXCEPT !.flags = 12]
@@ -240,6 +247,10 @@ SceneCases(fmt) ==
             sc \in {<<>>, <<<<"CChoreoView", "100">>>>}})
     \cup {[feat |-> "scene", v |-> s] : s \in
         {SceneOf(<<>>, <<>>),
+         \* events, actors and channels that share their names
+         SceneOf(<<Ev("Section"), Ev("Section")>>,
+                 <<ActorOf("a", TRUE, "", <<ChanOf("c", TRUE, <<Ev("LookAt"), Ev("LookAt")>>), ChanOf("c", FALSE, <<>>), ChanOf("C", TRUE, <<>>)>>),
+                   ActorOf("a", FALSE, "", <<>>)>>),
          SceneOf(<<Ev("Section")>>, <<ActorOf("an actor", TRUE, "", <<ChanOf("first", TRUE, <<Ev("LookAt"), Vary(Ev("Speak"), "end")>>),
                                                                        ChanOf("off", FALSE, <<>>)>>),
                                       ActorOf("!target1", FALSE, "", <<>>)>>),
@@ -258,11 +269,18 @@ Snd(sounds, vol, chan, lvl, pitch, force, stacks) ==
 NoStacks == <<<<>>, <<>>, <<>>>>
 Leaf(d, k, v) == <<d, k, v, FALSE>>
 Block(d, k) == <<d, k, "", TRUE>>
-SndSounds == {<<>>, <<"weapons/pistol/fire1.wav">>, <<")weapons/a.wav", "*#music/b c.mp3">>, <<"vo/caf{e9}.wav", "{20ac}/{3a9}.wav">>}
+\* A keyvalues tree with every shape an ordered multimap can take: a key repeated with the same
+\* spelling and in another case, a leaf after a block of the same name and a block after a leaf of
+\* the same name, an empty block, three levels of nesting with a repeat at the deepest.
+Shapes == <<Leaf(0, "texture", "a"), Leaf(0, "Texture", "b"), Leaf(0, "texture", "c"),
+            Block(0, "inner"), Leaf(1, "x", "1"), Leaf(1, "x", "2"), Leaf(0, "inner", "leaf after block"),
+            Leaf(0, "later", "leaf before block"), Block(0, "later"), Block(1, "deep"), Block(2, "deeper"), Leaf(3, "k", "v"), Leaf(3, "K", "w"),
+            Block(0, "empty"), Block(0, "Empty"), Leaf(0, "last", "1")>>
+SndSounds == {<<>>, <<"weapons/pistol/fire1.wav">>, <<"a.wav", "a.wav", "A.wav">>, <<")weapons/a.wav", "*#music/b c.mp3">>, <<"vo/caf{e9}.wav", "{20ac}/{3a9}.wav">>}
 \* each of the three operator stacks is there or not, independently of the others and of force_v2
-StackStart == {<<>>, <<Block(0, "mixer"), Leaf(1, "mixgroup", "Weapons")>>}
-StackUpdate == {<<>>, <<Leaf(0, "import_stack", "update_default")>>}
-StackStop == {<<>>, <<Block(0, "stop"), Block(1, "inner"), Leaf(2, "a", "b c"), Leaf(0, "z", "1")>>}
+StackStart == {<<>>, <<Block(0, "mixer"), Leaf(1, "mixgroup", "Weapons")>>, Shapes}
+StackUpdate == {<<>>, <<Leaf(0, "import_stack", "update_default"), Leaf(0, "import_stack", "second import")>>}
+StackStop == {<<>>, <<Block(0, "stop"), Block(1, "inner"), Leaf(2, "a", "b c"), Leaf(0, "z", "1")>>, Shapes}
 SndCases ==
     \* the value forms (single / range, number / constant) of volume, level, pitch and the channel
     {[feat |-> IF vol[1] # vol[2] \/ lvl[1] # lvl[2] \/ pitch[1] # pitch[2] THEN "range" ELSE "plain",
@@ -279,20 +297,25 @@ SndCases ==
 
 \* ---- materials
 VmtCases ==
-    {[feat |-> IF bl = 3 THEN "block_backslash" ELSE "plain",
+    {[feat |-> IF bl = 3 THEN "block_backslash" ELSE IF bl \in {4, 5} \/ px = 3 THEN "multimap" ELSE "plain",
       v |-> [shader |-> sh, params |-> pa,
              blocks |-> CASE bl = 0 -> <<>>
                           [] bl = 1 -> <<<<"LightmappedGeneric_DX8", <<Leaf(0, "$basetexture", "a/b"), Leaf(0, "$flag", "")>>>>>>
                           [] bl = 2 -> <<<<"insert", <<Block(0, "inner"), Leaf(1, "$x", "1 2 3"), Leaf(0, "$y", "[0 1]")>>>>, <<"replace", <<Leaf(0, "$k", "v")>>>>>>
-                          [] bl = 3 -> <<<<"Fallback", <<Leaf(0, "$basetexture", "models\\props\\x")>>>>>>,
+                          [] bl = 3 -> <<<<"Fallback", <<Leaf(0, "$basetexture", "models\\props\\x")>>>>>>
+                          \* every multimap shape inside a block; the block itself twice (and in another case)
+                          [] bl = 4 -> <<<<"insert", Shapes>>>>
+                          [] bl = 5 -> <<<<"Fallback", <<Leaf(0, "$a", "1")>>>>, <<"Fallback", <<Leaf(0, "$a", "2")>>>>, <<"fallback", <<>>>>>>,
              proxies |-> CASE px = 0 -> <<>>
                            [] px = 1 -> <<<<"Sine", <<Leaf(0, "min", "0"), Leaf(0, "resultVar", "$selfillumscale[0]")>>>>>>
-                           [] px = 2 -> <<<<"AnimatedTexture", <<Leaf(0, "animatedTextureVar", "$basetexture")>>>>, <<"Empty", <<>>>>>>]] :
+                           [] px = 2 -> <<<<"AnimatedTexture", <<Leaf(0, "animatedTextureVar", "$basetexture")>>>>, <<"Empty", <<>>>>>>
+                           \* the same proxy twice, a proxy with every multimap shape
+                           [] px = 3 -> <<<<"Sine", <<Leaf(0, "resultVar", "$a")>>>>, <<"Sine", <<Leaf(0, "resultVar", "$b")>>>>, <<"TextureTransform", Shapes>>>>]] :
         sh \in {"LightmappedGeneric", "patch"},
         pa \in {<<>>, <<<<"$basetexture", "tools/toolsskybox">>>>, <<<<"$basetexture", "caf{e9}/stra{df}e">>, <<"%keywords", "{20ac} {3a9}">>>>,
                 <<<<"$basetexture", "models\\props\\x">>, <<"$alpha", "">>, <<"%keywords", "a b">>, <<"$reflectivity", "[.4 .8 .12]">>>>,
                 <<<<"$Mixed Case", "{brace}">>, <<"include", "materials/x.vmt">>>>},
-        bl \in 0..3, px \in 0..2}
+        bl \in 0..5, px \in 0..3}
 
 \* ---- particle systems
 Opt(nm, t, v) == <<nm, t, "", v>>
@@ -304,16 +327,17 @@ NoOps == <<<<>>, <<>>, <<>>, <<>>, <<>>, <<>>>>
 OneOp == Op("render_sprites", "render_animated_sprites", <<Opt("animation rate", "FLOAT", "2.5"), Opt("orientation_type", "INTEGER", "2")>>)
 PcfCases ==
     {[feat |-> IF opts # <<>> /\ opts[1][1] = "Sort Particles" THEN "option_case" ELSE "plain",
-      v |-> [systems |-> <<Sys("sys one", "Sys One", opts, ops, ch)>> \o (IF ch = <<"other">> THEN <<Sys("other", "other", <<>>, NoOps, <<>>)>> ELSE <<>>)]] :
+      v |-> [systems |-> <<Sys("sys one", "Sys One", opts, ops, ch)>> \o (IF ch # <<>> /\ ch[1] = "other" THEN <<Sys("other", "other", <<>>, NoOps, <<>>)>> ELSE <<>>)]] :
         opts \in {<<>>, <<Opt("max_particles", "INTEGER", "5")>>, <<Opt("material", "STRING", "caf{e9}/{20ac}.vmt")>>, <<Opt("Sort Particles", "BOOL", "0"), Opt("use animation rate as FPS", "BOOL", "1")>>,
                   <<Opt("material", "STRING", "particle/fire.vmt"), Opt("radius", "FLOAT", "0.5"), Opt("sort", "BOOL", "1"),
                     Opt("color", "COLOR", "255 128 0 255"), Opt("bounds", "VEC3", "1 2.5 -3")>>},
-        ops \in {[k \in 1..6 |-> IF k = j THEN <<Op("only", "kind " \o ToString(j), <<Opt("x", "INTEGER", ToString(j))>>)>> ELSE <<>>] : j \in 1..6}
+        ops \in {[k \in 1..6 |-> IF k = j THEN <<Op("only", "kind " \o ToString(j), <<Opt("x", "INTEGER", ToString(j))>>),
+                                                  Op("only", "again " \o ToString(j), <<>>), Op("Only", "case " \o ToString(j), <<>>)>> ELSE <<>>] : j \in 1..6}
                \cup {NoOps, <<<<OneOp>>, <<>>, <<>>, <<>>, <<>>, <<>>>>,
                  <<<<OneOp>>, <<Op("fade", "Alpha Fade Out Random", <<>>)>>, <<Op("i", "Position Within Sphere Random", <<Opt("distance_max", "FLOAT", "8")>>)>>,
                    <<Op("e", "emit_continuously", <<>>)>>, <<Op("f", "random force", <<>>)>>, <<Op("c", "Constrain distance to control point", <<>>)>>>>,
                  <<<<>>, <<Op("same", "x", <<>>), Op("same", "y", <<>>)>>, <<>>, <<>>, <<>>, <<>>>>},
-        ch \in {<<>>, <<"other">>, <<"Sys One">>}}
+        ch \in {<<>>, <<"other">>, <<"Sys One">>, <<"other", "other">>}}
 
 \* ---- SMD meshes
 Vert(x, links) == <<x, "0.0", "0.5", "0.0", "0.0", "1.0", "0.25", "0.75", links>>
@@ -344,6 +368,10 @@ SmdCases ==
                      <<"bone5", "bone0">>, <<"bone6", "bone4">>, <<"bone7", "bone1">>, <<"bone8", "bone0">>>>,
                    <<<<"arm_l", "spine">>, <<"arm_r", "spine">>, <<"hand_l", "arm_l">>, <<"hand_r", "arm_r">>, <<"head", "spine">>,
                      <<"leg_l", "pelvis">>, <<"leg_r", "pelvis">>, <<"pelvis", "">>, <<"spine", "pelvis">>>>}}
+    \* a frame that lists a bone twice; two triangles of one material are in tr = 4, a bone linked twice in tr = 3
+    \cup {[feat |-> "plain", v |-> [bones |-> <<<<"root", "">>>>, keys |-> <<"root">>,
+                                   frames |-> <<<<0, <<<<"root", "0.0", "0.0", "0.0", "0.0", "0.0", "0.0">>, <<"root", "1.0", "0.0", "0.0", "0.0", "0.0", "0.0">>>>>>>>,
+                                   tris |-> <<>>]]}
     \cup {[feat |-> "plain", v |-> [bones |-> <<<<"kn{f6}chel", "root">>, <<"root", "">>>>, keys |-> <<"kn{f6}chel", "root">>,
                                    frames |-> <<Frame(0, <<<<"kn{f6}chel", "root">>, <<"root", "">>>>, "0.0")>>, tris |-> <<>>]]}
 
